@@ -887,6 +887,32 @@ extern void cplx_ifft16_precomp(const double entry_pwr, CPLX** omg);
 CLEAF(l_cfft16_ref, cplx_fft16_precomp, cplx_fft16_ref) CLEAF(l_cfft16_avx, cplx_fft16_precomp, cplx_fft16_avx_fma)
 CLEAF(l_cifft16_ref, cplx_ifft16_precomp, cplx_ifft16_ref) CLEAF(l_cifft16_avx, cplx_ifft16_precomp, cplx_ifft16_avx_fma)
 
+// twiddle pass on 2m complexes (a = first half, b = second half): a' = a + om*b, b' = a - om*b. The reference takes
+// om as one complex; the vector variants read it duplicated (re, im, re, im)
+extern void cplx_twiddle_fft_ref(int32_t h, CPLX* data, const CPLX powom);
+static void plan_twiddle(opplan_t* pl, rng_t* r, const env_t* e) {
+  (void)r;
+  M_AT_LEAST(pl, e, 16)
+  B_RAW(pl, R_INOUT, F_DBL, 4, 4 * e->m * 8, 8);
+  B_RAW(pl, R_IN, F_DBL, 0, 16, 8);
+}
+static void plan_twiddle_512(opplan_t* pl, rng_t* r, const env_t* e) { if (!__builtin_cpu_supports("avx512f")) { pl->skip = 1; return; } plan_twiddle(pl, r, e); }
+static void call_twiddle_ref(const opplan_t* pl, void* const p[], const env_t* e) { (void)pl; cplx_twiddle_fft_ref((int32_t)e->m, p[0], p[1]); }
+static void call_twiddle_fma(const opplan_t* pl, void* const p[], const env_t* e) {
+  (void)pl;
+  const double* o = p[1];
+  double om[4] = {o[0], o[1], o[0], o[1]};
+  struct cplx_twiddle_precomp t = {0, (int64_t)e->m};
+  cplx_fftvec_twiddle_fma(&t, p[0], (double*)p[0] + 2 * e->m, om);
+}
+static void call_twiddle_512(const opplan_t* pl, void* const p[], const env_t* e) {
+  (void)pl;
+  const double* o = p[1];
+  double om[4] = {o[0], o[1], o[0], o[1]};
+  struct cplx_twiddle_precomp t = {0, (int64_t)e->m};
+  cplx_fftvec_twiddle_avx512(&t, p[0], (double*)p[0] + 2 * e->m, om);
+}
+
 #define NTTV(NAME) plan_##NAME##_ntt
 const opdef_t OPS[] = {
     {"vec_znx_zero", OPF_FFT64, plan_zero, call_zero}, {"vec_znx_zero@ntt120", OPF_NTT120, NTTV(zero), call_zero},
@@ -987,6 +1013,8 @@ const opdef_t OPS[] = {
     {"reim_ifft4_ref", OPF_KERNEL, plan_leaf4, call_l_ifft4_ref}, {"reim_ifft4_avx_fma", OPF_KERNEL | OPF_AVX, plan_leaf4, call_l_ifft4_avx, "reim_ifft4_ref"},
     {"cplx_fft16_ref", OPF_KERNEL, plan_leaf16, call_l_cfft16_ref}, {"cplx_fft16_avx_fma", OPF_KERNEL | OPF_AVX, plan_leaf16, call_l_cfft16_avx, "cplx_fft16_ref"},
     {"cplx_ifft16_ref", OPF_KERNEL, plan_leaf16, call_l_cifft16_ref}, {"cplx_ifft16_avx_fma", OPF_KERNEL | OPF_AVX, plan_leaf16, call_l_cifft16_avx, "cplx_ifft16_ref"},
+    {"cplx_twiddle_fft_ref", OPF_KERNEL, plan_twiddle, call_twiddle_ref}, {"cplx_fftvec_twiddle_fma", OPF_KERNEL | OPF_AVX, plan_twiddle, call_twiddle_fma, "cplx_twiddle_fft_ref"},
+    {"cplx_fftvec_twiddle_avx512", OPF_KERNEL | OPF_AVX, plan_twiddle_512, call_twiddle_512, "cplx_twiddle_fft_ref"},
     {"reim_to_znx64(fresh table)", OPF_TABLE, plan_s_to_znx64, call_fresh_to_znx64},
     {"cplx_to_tnx32(fresh table)", OPF_TABLE, plan_s_cplx_to_tnx32, call_fresh_cplx_to_tnx32},
     {"reim_fft_simple", OPF_SIMPLE, plan_inplace_d, call_s_reim_fft, "reim_fft"}, {"reim_ifft_simple", OPF_SIMPLE, plan_inplace_d, call_s_reim_ifft, "reim_ifft"},
